@@ -96,3 +96,74 @@ Theorem C08_recover_roundtrip : forall m p a v,
   recover (invert m) v = Some p.
 Proof. exact recover_roundtrip. Qed.
 Print Assumptions C08_recover_roundtrip.
+
+(* ---- range enumeration, touches, mappings, mirrors (Proofs/StepMapProofs2.v) ---- *)
+From PM Require Import Proofs.StepMapProofs2.
+
+Theorem C08_for_each_spec : forall pre s x y post,
+  nth_error (for_each {| ranges := pre ++ (s, x, y) :: post; inverted := false |}) (length pre) =
+  Some (s, s + x, s + total_diff pre, s + total_diff pre + y).
+Proof. exact for_each_spec. Qed.
+Print Assumptions C08_for_each_spec.
+
+(* the enumeration is consistent with how the map maps *)
+Theorem C08_for_each_consistent : forall pre s x y post,
+  all_before pre s -> 0 <= x ->
+  map {| ranges := pre ++ (s, x, y) :: post; inverted := false |} s (-1) = s + total_diff pre /\
+  map {| ranges := pre ++ (s, x, y) :: post; inverted := false |} (s + x) 1 = s + total_diff pre + y.
+Proof. exact for_each_consistent. Qed.
+Print Assumptions C08_for_each_consistent.
+
+Theorem C08_for_each_invert : forall rs,
+  for_each (invert {| ranges := rs; inverted := false |}) =
+  List.map (fun q => match q with (a, b, c, e) => (c, e, a, b) end) (for_each {| ranges := rs; inverted := false |}).
+Proof. exact for_each_invert. Qed.
+Print Assumptions C08_for_each_invert.
+
+Theorem C08_invert_involutive : forall m, invert (invert m) = m.
+Proof. exact invert_involutive. Qed.
+Print Assumptions C08_invert_involutive.
+
+Theorem C08_touches_spec : forall pre s x y post p v,
+  all_before pre p -> recover_index v = Z.of_nat (length pre) -> 0 <= x ->
+  touches {| ranges := pre ++ (s, x, y) :: post; inverted := false |} p v = ((s <=? p) && (p <=? s + x)).
+Proof. exact touches_spec. Qed.
+Print Assumptions C08_touches_spec.
+
+(* a mapping without mirror registrations is the left-to-right composition of the maps in its window *)
+Theorem C08_mapping_is_composition : forall mp w pos assoc,
+  mirror mp = [] -> window (maps mp) (mfrom mp) (mto mp) = Some w -> 0 <= mfrom mp <= mto mp ->
+  mto mp <= Z.of_nat (length (maps mp)) ->
+  mapping_map mp pos assoc = Some (fold_maps w pos assoc) /\
+  exists d, mapping_map_result mp pos assoc = Some {| mr_pos := fold_maps w pos assoc; mr_del := d; mr_recover := None |}.
+Proof. exact mapping_map_compose. Qed.
+Print Assumptions C08_mapping_is_composition.
+
+Theorem C08_append_mapping_maps : forall self other, maps (append_mapping self other) = maps self ++ maps other.
+Proof. exact append_mapping_spec. Qed.
+Print Assumptions C08_append_mapping_maps.
+
+Theorem C08_append_mapping_inverted_maps : forall self other,
+  maps (append_mapping_inverted self other) = maps self ++ List.map invert (rev (maps other)).
+Proof. exact append_mapping_inverted_spec. Qed.
+Print Assumptions C08_append_mapping_inverted_maps.
+
+Theorem C08_invert_mapping_maps : forall mp, maps (minvert mp) = List.map invert (rev (maps mp)).
+Proof. exact minvert_spec. Qed.
+Print Assumptions C08_invert_mapping_maps.
+
+(* a map and its inverse registered as mirrors: forward and back returns EVERY position, including positions
+   inside deleted content — for maps whose ranges are at least one token apart (touching ranges: see the
+   known finding C08-mirror-adjacent-ranges, refuted by a concrete witness) *)
+Theorem C08_mirror_roundtrip : forall rs p a,
+  sep_ranges (-1) rs -> 0 <= p -> Z.of_nat (length rs) <= 65536 ->
+  let m := {| ranges := rs; inverted := false |} in
+  mapping_map {| maps := [m; invert m]; mirror := [(0, 1)]; mfrom := 0; mto := 2 |} p a = Some p.
+Proof. exact mirror_roundtrip_single. Qed.
+Print Assumptions C08_mirror_roundtrip.
+
+(* the full statement is false for touching ranges: *)
+Example C08_mirror_adjacent_refuted :
+  let m := {| ranges := [(0, 1, 1); (1, 1, 0)]; inverted := false |} in
+  mapping_map {| maps := [m; invert m]; mirror := [(0, 1)]; mfrom := 0; mto := 2 |} 2 1 = Some 1.
+Proof. vm_compute. reflexivity. Qed.
